@@ -232,16 +232,30 @@ Definition check_read_spec (s0 : N) (w : list (list entry * N * bool)) (r : wrea
       end
   end.
 
+(* The writer's SEGMENTATION (which buffers are sealed segments after a Cut / Rotate, hence how much already flushed
+   prefix a Truncate can drop) is a writer-side policy the property does not fix; only what a reader replays after a
+   valid start marker is (code 110). The byte-level tie is therefore independent of it:
+   8 = a saved file is not a byte suffix of the serialisation of ALL records appended so far (the model's file of
+       the same history without its Truncates);
+   7 = Reader.All on the saved file differs from the model's READER run on the implementation's own file bytes
+       (every start marker, inside or outside the valid window: panics and errors included), or the number of saved
+       files differs from the number of rotations. *)
+Definition is_wtrunc (op : wop) : bool := match op with WTrunc _ => true | _ => false end.
+Definition is_byte_suffix (f full : bytes) : bool :=
+  (length f <=? length full)%nat && bytes_eqb f (skipn (length full - length f) full).
+
 Definition check_wal (deep : bool) (s0 : N) (ops : list wop) (files : list bytes) (reads : list wread) : list N :=
-  let mfiles := rev (ws_saved (wrun s0 ops)) in
+  let fulls := rev (ws_saved (wrun s0 (filter (fun op => negb (is_wtrunc op)) ops))) in
   let w := walk ops in
-  flag (Nat.eqb (length mfiles) (length files)) 7 ++
-  (if deep then flag (list_eqb bytes_eqb mfiles files) 8 else []) ++
-  flat_map (fun r => match r with mkR fi after res =>
-              match nth_error mfiles (N.to_nat fi) with
-              | Some f => flag (wal_res_eqb res (wal_read_all f after)) 7
-              | None => [9]
-              end end) reads ++
+  flag (Nat.eqb (length fulls) (length files)) 7 ++
+  (if deep then
+     flag (all2 is_byte_suffix files fulls) 8 ++
+     flat_map (fun r => match r with mkR fi after res =>
+                 match nth_error files (N.to_nat fi) with
+                 | Some f => flag (wal_res_eqb res (wal_read_all f after)) 7
+                 | None => [9]
+                 end end) reads
+   else []) ++
   flat_map (check_read_spec s0 w) reads.
 
 Definition check_case (c : case) : list N :=
